@@ -419,6 +419,8 @@ end Example
 #print axioms checkoutChildren_linked
 #print axioms checkoutNode_over
 #print axioms checkoutChildren_over
+#print axioms childrenOK_childrenAs
+#print axioms readManifest_holds
 #print axioms checkoutNode_holds
 #print axioms checkoutChildren_holds
 #print axioms compatNode_of_holds
